@@ -7,8 +7,33 @@ PID = "C02"
 COQ_FILES = ["Model/Base.v", "Model/BpSpec.v", "Model/BpMachine.v", "Proofs/BpMachineProofs.v", "Gen/Bp.v", "Ties/BpTie.v", "Properties/C02.v"]
 RULES[PID] = ("same histories as C01; after every command and at every stop the executable mapping of the program is read from /proc/<pid>/mem and "
               "compared byte by byte with the ELF file: the differing addresses must be exactly the user's current breakpoints plus the ELF entry point; "
-              "before start nothing may differ; at the end stdout/stderr and the exit status must equal a native run. Non-trivial as for C01.")
+              "before start nothing may differ; at the end stdout/stderr and the exit status must equal a native run. Non-trivial as for C01. Step commands: the "
+              "step histories of the c03-e2e leg (stepi / step / next / finish on generated programs and the directed ones) compare the text with the ELF file after "
+              "every step command (no temporary breakpoint may stay), and three directed histories interrupt next / step / finish by a handled signal raised inside "
+              "the callee, then remove every breakpoint and continue to the exit: no patched byte, no stop at a ghost breakpoint, native output and status.")
+
+
+STEP_KEYS = ("c03-e2e:text-not-clean", "c03-e2e:ghost-stops", "c03-e2e:behaviour-changed", "c03-e2e:interrupted-step-crash")
+
+
+def steps_leg(ctx, tier, seed):
+    """C02's clause for step commands, observed by the step leg (its landing-place verdicts belong to C03 and are ignored here)."""
+    progs, hist, cmds = (1, 3, 20) if tier == "quick" else (6, 8, 40)
+    s = ctx.run_leg("c03-e2e", [seed, progs, os.path.join(ctx.cases_dir, "steps"), ctx.scratch, hist, cmds])
+    if s is None:
+        return
+    seen = {}
+    for f in s.get("failures", []):
+        k = f.get("key")
+        if k not in STEP_KEYS or seen.get(k, 0) >= 3:
+            continue
+        seen[k] = seen.get(k, 0) + 1
+        ctx.violate("impl-violates-spec", "c03-e2e (text after step commands)", {"failure": f}, key=k.replace("c03-e2e:", "c02-steps:"), found_input=True)
+    d = dict(s)
+    for k in ("case_meta", "failures", "files"):
+        d.pop(k, None)
+    ctx.add_leg(d, {"step_text_failures": sum(seen.values())})
 
 
 def run(tier, seed):
-    return base.run(tier, seed, pid=PID, files=COQ_FILES)
+    return base.run(tier, seed, pid=PID, files=COQ_FILES, extra=steps_leg)
